@@ -30,6 +30,9 @@ BASE = 'a55d07f'     # the commit the properties' line numbers refer to
 # functions): (file, kind, name regex).  Found by seeded changes the anchors alone did not notice.
 EXTRA = {
     # the per-family parse functions of afisafi.rs (anchored) delegate to these; Model/Nlri.v parse_body mirrors them
+    # Attribute for HopPath (value_len / compose_value) goes through these: every AS_PATH the builder or a re-encoding writes
+    'C06': [('src/bgp/aspath.rs', 'fn', r'compose_as_path|compose_as16_path|to_as_path|compose_len')],
+    'C07': [('src/bgp/aspath.rs', 'fn', r'compose_as_path|compose_as16_path|to_as_path|compose_len|to_hop_path|next|hops|segments')],
     'C05': [('src/bgp/nlri/%s.rs' % f, 'fn', r'parse\w*') for f in ('mpls', 'mpls_vpn', 'common', 'evpn', 'routetarget', 'vpls', 'flowspec')],
 }
 
